@@ -102,6 +102,29 @@ CLAIMED = {
         note=("Only the obligations that close are posed (w32: linear field ops except sub, codecs except strict decode at "
               "the exact length, selects/zero tests; avx2: lookups/selects). gf255_m51, clmul binary fields and zz32 have no obligations yet."),
     ),
+    "C12": dict(
+        engine="llsym",
+        technique="symbolic execution of optimized LLVM IR; LIA with abstract partial products; z3 decides the GCD's linear-combination steps for all operands per sign case",
+        category="model_checking",
+        text=("The two linear-algebra kernels of the division/Legendre binary GCD -- lin (u*f+v*g mod q) and "
+              "lindiv31abs (|a*f+b*g|/2^31 with sign) -- are decided exact for all operands and update factors on "
+              "three field backends. The end-to-end statement x/y*y=x needs the convergence theorem of the "
+              "approximate GCD (eprint 2020/972) and is honestly outside a bounded solver check."),
+        design_ref="DESIGN.md 3 C12, 8",
+        note="Partial: step-level only; square roots, Legendre value, batch inversion, binary fields are not posed.",
+    ),
+    "C07": dict(
+        engine="llsym",
+        technique="path-forking symbolic execution of optimized LLVM IR with contract stubs at cut-point functions (point/scalar decoding, SHA-512 compression as uninterpreted function, verification helper); z3 decides path conditions and results; native replay against a reference verifier",
+        category="model_checking",
+        text=("For all key/signature/context/message bytes at the listed lengths, Ed25519 PublicKey::decode + "
+              "verify_raw/ctx/ph accept exactly when len=64, A and R decode, S<L, and the cofactored helper accepts "
+              "(A, R, S, k) with k the reduction of SHA-512(dom2 || R || A || M): argument wiring, hash input and "
+              "acceptance condition are decided on the real IR."),
+        design_ref="DESIGN.md 3 C07, 8",
+        note=("Glue only: the stubs' contracts are C05/C06/C17/C10. Ed448 and the signing side are not posed. "
+              "Uses the in-repo cfg hook pornin_crrl_verif_cut (inline(never) on cut points)."),
+    ),
 }
 
 NA_REASON = "check not built yet (work in progress; see DESIGN.md section 8)"
@@ -136,7 +159,7 @@ man = {
     "engines": [
         {"name": "polyid", "path": "engines/polyid", "serves_properties": ["C03"],
          "kind_free_text": "interpreter over rustc MIR executing point formulas over an abstract ring; z3 decides polynomial identities"},
-        {"name": "llsym", "path": "engines/llsym", "serves_properties": ["C01", "C02", "C05", "C11", "C18", "C19", "C20"],
+        {"name": "llsym", "path": "engines/llsym", "serves_properties": ["C01", "C02", "C05", "C07", "C11", "C12", "C18", "C19", "C20"],
          "kind_free_text": "symbolic executor over rustc's optimized LLVM IR (concrete control, symbolic data) with bit-vector and integer SMT encodings; z3/cvc5 decide"},
     ],
     "checks": checks,
